@@ -276,6 +276,13 @@ func VerifC12_HTTPEndToEndLimit() {
 	verifAssert(plain.Call(NewFContext("c"), "ping", &verifMsg{a: args[3], b: "y", c: "z"}, res0) == nil, "unlimited call works")
 	// a limit somewhere inside the range of reply sizes the arguments produce
 	limit := uint(60 + 4*verifChoice(12) + verifParam())
+	if verifChoice(3) > 0 {
+		// "every configured size limit": also limits far above any reply (4 GiB and up, MaxInt64 used as "unlimited"):
+		// the limit travels as a decimal header and must survive that unchanged
+		limit = []uint{0, 1 << 32, 1<<63 - 1}[verifChoice(3)]
+		verifAssume(limit != 0)
+		verifReach("huge-limit")
+	}
 	tr := NewFHTTPTransportBuilder(&http.Client{}, "http://h/x").WithResponseSizeLimit(limit).Build()
 	client := NewFStandardClient(NewFServiceProvider(tr, pf))
 	for round := 0; round < 2; round++ {
